@@ -33,7 +33,10 @@ Key2(s) == R!Bytes(Seed, 102, 16)
 CarryIV(bits, b) ==       \* bytes above the carry random, the low `bits` bits = 2^bits - b
   LET hi == R!Bytes(Seed, 104, 16 - (bits \div 8))
   IN hi \o B!Rep(255, (bits \div 8) - 1) \o <<256 - b>>
-IV(s) == IF s.ivc = <<>> THEN R!Bytes(Seed, 103, 16) ELSE CarryIV(s.ivc[1], s.ivc[2])
+(* ivc = <<>>: pseudo-random; <<bits, b>> with bits > 0: counter b below a carry; <<0, n>>: the n-th IV given to SetIV *)
+IV(s) == IF s.ivc = <<>> THEN R!Bytes(Seed, 103, 16)
+         ELSE IF s.ivc[1] = 0 THEN R!Bytes(Seed, 105 + s.ivc[2], 16)
+         ELSE CarryIV(s.ivc[1], s.ivc[2])
 Plain(s) == R!Bytes(Seed, 110 + (s.len % 7), s.len)
 
 (* one-shot encryption / decryption of a whole message under the scenario *)
@@ -123,6 +126,20 @@ Call(n) == /\ phase = "ready" /\ Admissible(n)
            /\ reply' = SubSeq(wout, pos + 1, pos + n)
            /\ pos' = pos + n /\ ncalls' = ncalls + 1
            /\ UNCHANGED <<sc, phase, win, wout>>
+
+(* SetIV (cbc, bc, ofbnlf objects offer it): the object starts a new message under the same key with the new IV. *)
+(* Abstractly the scenario gets the new IV and the position returns to 0; the message of the new segment has the   *)
+(* same length (contents differ through the length-independent generator only in the IV-dependent output).          *)
+SetIvModes == {"cbc", "bc", "ofbnlf"}
+SetIV(n) == /\ phase = "ready" /\ sc.mode \in SetIvModes /\ pos % 16 = 0
+            /\ sc' = [sc EXCEPT !.ivc = <<0, n>>]
+            /\ pos' = 0
+            /\ LET s2 == [sc EXCEPT !.ivc = <<0, n>>]
+                   p == Plain(s2)
+                   c == EncWith(s2, p)
+               IN IF sc.dir = "enc" THEN win' = p /\ wout' = c ELSE win' = c /\ wout' = p
+            /\ reply' = <<>>
+            /\ UNCHANGED <<phase, ncalls>>
 
 (* C03 on the model: decryption inverts encryption (checked on small instances: costs a second pass) *)
 RoundTrip == phase = "ready" => (IF sc.dir = "enc" THEN DecWith(sc, wout) = win ELSE EncWith(sc, wout) = win)
